@@ -17,6 +17,8 @@ R4 the constructor's rewrites are idempotent (config of the rebuilt object
    equals the first config).
 R9 an array-valued option (a frozen post_training_scale) keeps its shape
    and entries through get_config / from_config.
+R10 a quantizer built after every other configuration has been built and
+   used in the same interpreter computes what it computes alone.
 R5 registry: the 14 decorated classes are registered under their own name,
    lookup indexes the same container, quantizer_imports re-exports exactly
    those names, all are module-level names of quantizers.py and have
@@ -28,6 +30,7 @@ from fractions import Fraction as F
 
 from ..loader import AnalysisError
 from ..pe import ConfigRejected, PyRaise, Tensor, Obj, PE, ClassRef, NArr
+from ..pe import Unsupported
 from .. import quant, qref
 from ..qir import Fwd, equal_mod_finite
 from ..nf import NF, show
@@ -660,6 +663,85 @@ def rule_array_layout(rep, repo, mod, rule="R9"):
   return n
 
 
+def rule_construction_history(rep, repo, mod, classes, rule, unit_method=
+                              "__call__"):
+  """What a quantizer computes depends on its own options, not on the
+  quantizers that were built and used before it in the same process.  In
+  ONE interpreter (module globals, class attributes and memoised helpers
+  persist) every option alternative of the given classes is constructed and
+  called first; then the base configuration and every alternative are built
+  again in that interpreter and compared - forward function in both phases,
+  recorded scale, min() / max() - with the same configuration built in a
+  fresh interpreter."""
+  points = []
+  for cls in classes:
+    base, alts = ALTS[cls]
+    ci = mod.classes[cls]
+    params = [p for p, _ in ci.init_params()[0]]
+    points.append((cls, dict(base)))
+    for p, vals in sorted(alts.items()):
+      if p not in params:
+        continue
+      for v in vals:
+        ctx = {}
+        if isinstance(v, tuple):
+          v, ctx = v
+        if v is PTS or isinstance(v, NArr) or p in ("var_name",
+                                                    "use_variables"):
+          continue
+        points.append((cls, dict(base, **dict(ctx, **{p: v}))))
+  shared = PE(repo)
+
+  def use(pe, cls, kw):
+    cref = pe.lookup_global(cls, mod)
+    q = pe.call(cref, [], dict(kw))
+    pe.rand_counter = 0
+    out = pe.call(q, [pe.x_input()], {})
+    rep_ = {}
+    for m in ("min", "max"):
+      try:
+        rep_[m] = pe.call(pe.getattr(q, m), [], {})
+      except (PyRaise, Unsupported):
+        rep_[m] = None
+    return q, out, rep_
+  # the history: everything once
+  for cls, kw in points:
+    try:
+      use(shared, cls, kw)
+    except (PyRaise, Unsupported, ConfigRejected):
+      pass
+  n = 0
+  for cls, kw in points:
+    unit = "%s::%s.%s" % (mod.relpath, cls, unit_method)
+    cfg = "%s(%s) built after %d other quantizers" % (cls, show_kw(kw),
+                                                       len(points))
+    try:
+      qf, of, rf = use(PE(repo), cls, kw)
+    except (PyRaise, Unsupported, ConfigRejected):
+      continue
+    try:
+      qs, os_, rs = use(shared, cls, kw)
+    except (PyRaise, Unsupported, ConfigRejected) as e:
+      rep.fail(rule, unit, "raises-after-other-quantizers",
+               "%s raises %s (alone it does not)" % (cfg, e), instance=cfg)
+      continue
+    n += 1
+    syms = {"post_training_scale": NF.sym("pts")}
+    bad = None
+    for ph in ("infer", "train"):
+      f1, f2 = Fwd(ph, syms)(os_.term), Fwd(ph, syms)(of.term)
+      if not equal_mod_finite(f1, f2):
+        bad = bad or "%s forward %s, alone %s" % (ph, show(f1, 140),
+                                                  show(f2, 140))
+    for m in ("min", "max"):
+      if bad is None and not same_value(rs[m], rf[m]):
+        bad = "%s() = %r, alone %r" % (m, rs[m], rf[m])
+    rep.check(bad is None, rule, unit, "depends-on-earlier-quantizers",
+              "%s: %s" % (cfg, bad), loc=shared.loc_of(os_.term),
+              instance="%s(%s)" % (cls, show_kw(kw)))
+  return n
+
+
 def rule_registry(rep, repo, mod):
   reg = repo.module("qkeras.quantizer_registry")
   base = repo.module("qkeras.registry")
@@ -717,6 +799,40 @@ def rule_registry(rep, repo, mod):
             "register/lookup-by-__name__",
             "Registry.register(cls) followed by lookup(cls.__name__) yields "
             "%r" % (got,), loc=rc.loc())
+  # every public name resolves to the class of that name: all quantizer
+  # classes are registered in their definition order (a parent such as
+  # `ternary` before `stochastic_ternary`, whose name ends with it) and each
+  # name is then looked up
+  pe3 = PE(repo)
+  try:
+    r_all = pe3.call(ClassRef(rc), [], {})
+    for cname in qref.ALL_QUANTIZERS:
+      pe3.call(pe3.getattr(r_all, "register"), [ClassRef(mod.classes[cname])],
+               {})
+    wrong = []
+    for cname in qref.ALL_QUANTIZERS:
+      try:
+        g = pe3.call(pe3.getattr(r_all, "lookup"), [cname], {})
+      except PyRaise as e:
+        g = "raises %s" % e
+      if not (isinstance(g, ClassRef) and g.cls is mod.classes[cname]):
+        wrong.append("%s -> %s" % (cname, g.cls.name if isinstance(
+            g, ClassRef) else g))
+    try:
+      unknown = pe3.call(pe3.getattr(r_all, "lookup"), ["no_such_quantizer"],
+                         {})
+    except PyRaise:
+      unknown = None
+    rep.check(not wrong and unknown is None, "R5", "%s::Registry" %
+              base.relpath, "lookup-resolves-another-class",
+              "with all %d quantizer classes registered: %s; an unknown name "
+              "resolves to %r (expected an error)" % (
+                  len(qref.ALL_QUANTIZERS), ", ".join(wrong) or
+                  "every name resolves to its class", unknown), loc=rc.loc())
+  except PyRaise as e:
+    rep.fail("R5", "%s::Registry" % base.relpath, "registry-raises",
+             "registering every quantizer class: raises %s" % e,
+             loc=rc.loc())
   # registries are isolated from one another: what a second Registry()
   # registers - even under a quantizer's name - is invisible to the first
   pe2 = PE(repo)
@@ -844,6 +960,9 @@ def run(rep, repo, tier):
   rep.require_instances("R8", 150)
   rule_array_layout(rep, repo, mod)
   rep.require_instances("R9", 5)
+  rep.extra["construction_histories"] = rule_construction_history(
+      rep, repo, mod, qref.ALL_QUANTIZERS, "R10")
+  rep.require_instances("R10", 100)
   if tier == "thorough":
     for cls, kw in qref.lattice_all("quick", with_f=False):
       roundtrip(rep, repo, mod, cls, dict(kw), None)
